@@ -19,7 +19,7 @@ from pyvc.core import PYOBJ, Unsupported, Val, fresh, lift
 from pyvc.symex import FuncRef
 
 from . import c01, c02, rtlib  # noqa: F401
-from .c02 import _T6, _ap, _eq6, _six, composed6, compose_terms, mk_transform, new_value_object
+from .c02 import _T6, _ap, _eq6, _six, composed6, compose_terms, dot2, mk_transform, new_value_object  # noqa: F401
 
 # =====================================================================================================
 # Lemmas: affine algebra (pure SMT over reals)
@@ -194,6 +194,22 @@ contract(
     canaries={"inverse-is-self": "self._inverted.xx == transformation.xx"},
 )
 
+# the same constructor as a call-site summary for TransformationsFilter.filter: everything EXCEPT the six inverse terms (the filter needs
+# which matrix / pen / set the new pen carries; the divisions of the inverse only slow its obligations down).  Proved from the same body.
+contract(
+    "ufo2ft.filters.transformations:TransformPointPen.__init__",
+    name="stored",
+    props=["C15"],
+    params={"self": Ref("C15_TPen"), "outPointPen": Ref("C15_OutPen"), "transformation": Ref("Transform"), "modified": Opt(Set(STR))},
+    globals=_SUPER,
+    requires=["transformation.xx * transformation.yy - transformation.yx * transformation.xy != 0"],
+    ensures={
+        "matrix": "self._transformation == transformation and self._outPen == outPointPen",
+        "modified-set": "self.modified is not None and implies(modified is not None, self.modified == modified)",
+    },
+    canaries={"drops-modified": "self.modified != modified"},
+)
+
 contract(
     "ufo2ft.filters.transformations:TransformPointPen.addComponent",
     props=["C15"],
@@ -205,9 +221,10 @@ contract(
         "one-component-forwarded": "len(self._outPen.comp_t) == len(old(self._outPen.comp_t)) + 1 and len(self._outPen.comp_base) == len(old(self._outPen.comp_base)) + 1"
         " and self._outPen.comp_base[len(self._outPen.comp_base) - 1] == baseGlyph",
         # base not transformed by this filter run: the reference simply gets M∘t
-        "plain": "implies(baseGlyph not in self.modified, " + _eq6(_LAST, composed6(_MF, _TF)) + ")",
+        # (one clause per matrix entry: each obligation is a single polynomial identity)
+        **{f"plain-{k}": f"implies(baseGlyph not in self.modified, {_LAST}.{k} == {e})" for k, e in zip(_T6, composed6(_MF, _TF))},
         # base ALREADY transformed by M: the reference gets M∘(t∘M⁻¹)  — with lemma C15.compensation the composite renders M(before)
-        "compensated": "implies(baseGlyph in self.modified, " + _eq6(_LAST, composed6(_MF, composed6(_TF, _IF))) + ")",
+        **{f"compensated-{k}": f"implies(baseGlyph in self.modified, {_LAST}.{k} == {e})" for k, e in zip(_T6, composed6(_MF, composed6(_TF, _IF)))},
     },
     canaries={"never-compensates": _eq6(_LAST, composed6(_MF, _TF))},
 )
@@ -257,7 +274,9 @@ cls("C15_Glyph", fields={"name": STR, "width": REAL, "height": REAL, "anchors": 
 cls("C15_GlyphSet", fields={"glyphs": Dict(STR, Ref("C15_Glyph"))},
     getitem=lambda ex, st, self, idx, node: ex.getitem(ex.read_field(st, self, "glyphs"), idx, st, node),
     contains=lambda ex, st, self, x: z3.Select(ex.read_field(st, self, "glyphs").ty.sort().dom(ex.read_field(st, self, "glyphs").term), lift(x, STR)),
-    views={"glyphs": lambda o: dict(o.items())}, notes="glyph set: name -> glyph")
+    # `names`: the key SET (quantifying over it, unlike iterating the dict, brings no key-order facts into the obligation)
+    derived={"names": lambda ex, st, self: Val(Set(STR), ex.read_field(st, self, "glyphs").ty.sort().dom(ex.read_field(st, self, "glyphs").term))},
+    views={"glyphs": lambda o: dict(o.items()), "names": lambda o: set(o.keys())}, notes="glyph set: name -> glyph")
 cls("C15_TOptions", fields={"OffsetX": REAL, "OffsetY": REAL, "ScaleX": REAL, "ScaleY": REAL, "Slant": REAL, "Origin": INT}, notes="TransformationsFilter.options")
 cls("C15_TFilter", fields={"options": Ref("C15_TOptions"), "context": Ref("C02_Ctx")}, repo="ufo2ft.filters.transformations:TransformationsFilter",
     notes="TransformationsFilter instance")
@@ -294,6 +313,11 @@ class _IdentityVal(Val):
 
     __hash__ = object.__hash__
 
+    def __call__(self):
+        """(marks the value as meaningful natively: the run-time side drops non-callable symbolic globals, and the clauses
+        `Identity.xx == 1 ...` / `result.matrix == Identity` need the name at run time too)"""
+        return self
+
 
 _IDENT = _IdentityVal(Ref("Transform"), z3.Const("c15_Identity", T.RefSort))
 _IDENT_REQ = "Identity.xx == 1 and Identity.xy == 0 and Identity.yx == 0 and Identity.yy == 1 and Identity.dx == 0 and Identity.dy == 0"
@@ -314,7 +338,7 @@ contract(
     ensures={
         # the requested affine matrix, as ONE closed form: (x, y) -> (sx*(x + k*(y-h)) + dx,  sy*(y-h) + h + dy)
         **{f"matrix-{k}": f"result.matrix.{k} == {e}" for k, e in zip(_T6, _EXPECTED)},
-        "nothing-requested-is-identity": f"implies({_O}.OffsetX == 0 and {_O}.OffsetY == 0 and {_O}.ScaleX == 100 and {_O}.ScaleY == 100 and {_O}.Slant == 0, result.matrix == Identity)",
+        "nothing-requested-is-identity": f"implies({_O}.OffsetX == 0 and {_O}.OffsetY == 0 and {_O}.ScaleX == 100 and {_O}.ScaleY == 100 and {_O}.Slant == 0, Identity == result.matrix)",  # (operand order: natively _IdentityVal.__eq__ compares the six numbers)
         "is-context": "result == self.context",
     },
     canaries={"offset-after-scale": f"result.matrix.dx == {_SXp} * {_O}.OffsetX - {_SXp} * {_K} * {_H}"},
@@ -646,6 +670,7 @@ contract(
     params={"self": Ref("C15_TFilter"), "glyph": Ref("C15_Glyph")},
     returns=BOOL,
     globals={"Identity": _IDENT},
+    calls={"ufo2ft.filters.transformations:TransformPointPen.__init__": "ufo2ft.filters.transformations:TransformPointPen.__init__#stored"},
     requires=[
         _IDENT_REQ,
         # value semantics of `matrix == Identity` (tuple equality): the only transform with the identity's six numbers is Identity
@@ -656,7 +681,7 @@ contract(
         "glyph.ncontours >= 0",
         # ... and the same for every glyph of the glyph set (the function recurses into the bases)
         "all(distinct(self.context.glyphSet.glyphs[n].anchors) and self.context.glyphSet.glyphs[n].ncontours >= 0"
-        " and all(c.baseGlyph in self.context.glyphSet.glyphs for c in self.context.glyphSet.glyphs[n].components) for n in self.context.glyphSet.glyphs)",
+        " and all(c.baseGlyph in self.context.glyphSet.glyphs for c in self.context.glyphSet.glyphs[n].components) for n in self.context.glyphSet.names)",
     ],
     modifies=_FILTER_FIELDS,
     ensures={
@@ -670,11 +695,21 @@ contract(
     hints={
         # the outline was cleared and replayed exactly once through a pen carrying THE matrix and the context's modified set
         "rec.replay(filterpen)": [f"filterpen._transformation == {_MX} and filterpen._outPen.glyph == glyph and rec.recorded == glyph"],
+        # the arithmetic of one anchor (ground terms: the definition of dot2 is instantiated here): transformPoint = full affine map
+        "a.x, a.y = matrix.transformPoint((a.x, a.y))": [
+            f"a == glyph.anchors[ai] and a.x == dot2({_MX}.xx, AX[ai], {_MX}.yx, AY[ai]) + {_MX}.dx and a.y == dot2({_MX}.xy, AX[ai], {_MX}.yy, AY[ai]) + {_MX}.dy",
+            # frame of the two stores, spelled out: the anchors before position ai are other objects, so what was established for them still holds
+            "all(glyph.anchors[k] != a for k in range(ai))",
+            f"all(glyph.anchors[k].x == dot2({_MX}.xx, AX[k], {_MX}.yx, AY[k]) + {_MX}.dx for k in range(ai))",
+            f"all(glyph.anchors[k].y == dot2({_MX}.xy, AX[k], {_MX}.yy, AY[k]) + {_MX}.dy for k in range(ai))",
+        ],
         # advance = linear part only (a vector): no offset added
         "glyph.width, glyph.height = matrix.transformVector((glyph.width, glyph.height))": [
             f"glyph.width == {_MX}.xx * W0 + {_MX}.yx * H0 and glyph.height == {_MX}.xy * W0 + {_MX}.yy * H0",
-            # every anchor = full affine map of its old position (a point)
-            f"all(glyph.anchors[k].x == {_MX}.xx * AX[k] + {_MX}.yx * AY[k] + {_MX}.dx and glyph.anchors[k].y == {_MX}.xy * AX[k] + {_MX}.yy * AY[k] + {_MX}.dy for k in range(len(glyph.anchors)))",
+            # every anchor = full affine map of its old position (a point); dot2(a, b, c, d) = a*b + c*d (contracts/c02.py: kept as a
+            # symbol so that the quantified facts are free of non-linear arithmetic; its definition is used at the hint inside the loop)
+            f"all(glyph.anchors[k].x == dot2({_MX}.xx, AX[k], {_MX}.yx, AY[k]) + {_MX}.dx for k in range(len(glyph.anchors)))",
+            f"all(glyph.anchors[k].y == dot2({_MX}.xy, AX[k], {_MX}.yy, AY[k]) + {_MX}.dy for k in range(len(glyph.anchors)))",
             "glyph.replay_count == RC",
         ],
     },
@@ -684,7 +719,8 @@ contract(
             index="ai",
             invariants={
                 "len": "len(AX) == len(glyph.anchors) and len(AY) == len(glyph.anchors)",
-                "done": f"all(glyph.anchors[k].x == {_MX}.xx * AX[k] + {_MX}.yx * AY[k] + {_MX}.dx and glyph.anchors[k].y == {_MX}.xy * AX[k] + {_MX}.yy * AY[k] + {_MX}.dy for k in range(ai))",
+                "done-x": f"all(glyph.anchors[k].x == dot2({_MX}.xx, AX[k], {_MX}.yx, AY[k]) + {_MX}.dx for k in range(ai))",
+                "done-y": f"all(glyph.anchors[k].y == dot2({_MX}.xy, AX[k], {_MX}.yy, AY[k]) + {_MX}.dy for k in range(ai))",
                 "todo": "all(glyph.anchors[k].x == AX[k] and glyph.anchors[k].y == AY[k] for k in range(ai, len(glyph.anchors)))",
             },
         ),
